@@ -95,6 +95,8 @@ pub enum Abort {
 
 #[derive(Clone, Debug, Default)]
 pub struct Outcome {
+    /// number of scheduling points executed (== trace.len() unless `light`)
+    pub points: usize,
     pub trace: Vec<Point>,
     pub abort: Option<Abort>,
     pub preemptions: usize,
@@ -113,6 +115,8 @@ impl Outcome {
 }
 
 struct St {
+    light: bool,
+    points: usize,
     threads: Vec<Th>,
     current: Option<usize>,
     prev: Option<usize>,
@@ -195,7 +199,7 @@ impl Exec {
         self.names
             .get(&addr)
             .cloned()
-            .unwrap_or_else(|| "anon".to_string())
+            .unwrap_or_else(|| "file-analysis-lock".to_string())
     }
 
     fn grantable(st: &St, op: Op) -> bool {
@@ -292,7 +296,7 @@ impl Exec {
             self.wake_all();
             return;
         }
-        let pos = st.trace.len();
+        let pos = st.points;
         if pos >= st.horizon {
             st.abort = Some(Abort::Horizon(pos));
             self.wake_all();
@@ -336,14 +340,17 @@ impl Exec {
         st.threads[chosen].status = Status::Running;
         st.current = Some(chosen);
         st.prev = Some(chosen);
-        st.trace.push(Point {
-            enabled,
-            chosen_idx: idx,
-            prev_enabled,
-            granted,
-        });
-        let h = self.state_hash(st);
-        st.state_hashes.push(h);
+        st.points += 1;
+        if !st.light {
+            st.trace.push(Point {
+                enabled,
+                chosen_idx: idx,
+                prev_enabled,
+                granted,
+            });
+            let h = self.state_hash(st);
+            st.state_hashes.push(h);
+        }
         self.tcv[chosen].notify_all();
     }
 
@@ -423,6 +430,8 @@ impl Exec {
 }
 
 pub struct ExecConfig {
+    /// do not record the trace / state hashes (long single-thread sweeps); counts are still kept
+    pub light: bool,
     pub choices: Vec<usize>,
     pub horizon: usize,
     pub lock_names: HashMap<usize, String>,
@@ -437,6 +446,8 @@ pub fn run_execution(bodies: Vec<Body>, cfg: ExecConfig) -> Outcome {
     let n = bodies.len();
     let exec = Arc::new(Exec {
         st: Mutex::new(St {
+            light: cfg.light,
+            points: 0,
             threads: (0..n)
                 .map(|_| Th {
                     status: Status::NotStarted,
@@ -512,6 +523,7 @@ pub fn run_execution(bodies: Vec<Body>, cfg: ExecConfig) -> Outcome {
                 exec.wake_all();
                 // threads blocked on an unintercepted primitive cannot be unwound: give up on join
                 let out = Outcome {
+                    points: st.points,
                     trace: st.trace.clone(),
                     abort: st.abort.clone(),
                     preemptions: st.preemptions,
@@ -528,6 +540,7 @@ pub fn run_execution(bodies: Vec<Body>, cfg: ExecConfig) -> Outcome {
     }
     let st = exec.st.lock().unwrap();
     let out = Outcome {
+        points: st.points,
         trace: st.trace.clone(),
         abort: st.abort.clone(),
         preemptions: st.preemptions,
